@@ -1,13 +1,340 @@
 package main
 
-// Extension slot C: request lines (goExecExtC) and generators (registered with regExtra) of one model extension.
+// Extension slot C — the ORACLE of C08 under test: the strict reference decoder
+// (Lean, Model/SpecDecode.lean, layer W) must accept every genuine output of the
+// library in every mode and give back the very same bytes (render∘parse = id),
+// and must reject every non-canonical re-encoding of a genuine output:
+// bin8→bin16, fixarray→array16, str↔bin, nil for an empty bin, an extra array
+// element, a trailing byte/object, a non-minimal integer.
+//
+// Request line:  sdw <enc|att|det|sc> <hex>  →  ok <hex> | reject <why>
+// goExecExtC answers the same line with an independent strictness check written
+// in Go over the harness's own MessagePack tree (mp.go): canonical re-encoding
+// must reproduce the bytes, and the tree must have the mode's shape.
+
+import (
+	"bytes"
+	"fmt"
+	"strings"
+
+	"verifharness/internal/keys"
+)
+
+func isBinLen(v *MV, n int) bool { return v != nil && v.K == mvBin && (n < 0 || len(v.Data) == n) }
+
+func intOf(v *MV) (int64, bool) {
+	switch v.K {
+	case mvUint:
+		return int64(v.U), true
+	case mvInt:
+		return v.I, true
+	}
+	return 0, false
+}
+
+func canonicalObjs(b []byte) ([]*MV, bool) {
+	objs, rest := mpSplit(b)
+	if len(rest) != 0 {
+		return nil, false
+	}
+	var out []*MV
+	for _, o := range objs {
+		v, r, err := mpParse(o)
+		if err != nil || len(r) != 0 || !bytes.Equal(mpEncode(v), o) {
+			return nil, false
+		}
+		out = append(out, v)
+	}
+	return out, true
+}
+
+// strictShapeGo: "" when the byte string is a canonical message of the mode.
+func strictShapeGo(mode string, msg []byte) string {
+	objs, ok := canonicalObjs(msg)
+	if !ok {
+		return "not canonical MessagePack"
+	}
+	if len(objs) == 0 || objs[0].K != mvBin {
+		return "header packet"
+	}
+	in, ok := canonicalObjs(objs[0].Data)
+	if !ok || len(in) != 1 || in[0].K != mvArr {
+		return "inner header"
+	}
+	f := in[0].Arr
+	want := map[string]int{"enc": 6, "att": 5, "det": 5, "sc": 6}[mode]
+	typ := map[string]int64{"enc": 0, "att": 1, "det": 2, "sc": 3}[mode]
+	if len(f) != want || f[0].K != mvStr || string(f[0].Data) != "saltpack" || f[1].K != mvArr || len(f[1].Arr) != 2 {
+		return "header fields"
+	}
+	major, ok1 := intOf(f[1].Arr[0])
+	minor, ok2 := intOf(f[1].Arr[1])
+	ty, ok3 := intOf(f[2])
+	if !ok1 || !ok2 || !ok3 || (major != 1 && major != 2) || minor != 0 || ty != typ {
+		return "version / mode"
+	}
+	pk := objs[1:]
+	flagged := func(p *MV, n int) ([]*MV, bool) { // packet elements after the V2 final flag
+		if p.K != mvArr {
+			return nil, false
+		}
+		if major == 1 {
+			return p.Arr, len(p.Arr) == n
+		}
+		return p.Arr[min(1, len(p.Arr)):], len(p.Arr) == n+1 && p.Arr[0].K == mvBool
+	}
+	switch mode {
+	case "enc", "sc":
+		if mode == "sc" && major != 2 {
+			return "signcryption major"
+		}
+		if !isBinLen(f[3], 32) || !isBinLen(f[4], 48) || f[5].K != mvArr {
+			return "key fields"
+		}
+		for _, r := range f[5].Arr {
+			if r.K != mvArr || len(r.Arr) != 2 || !isBinLen(r.Arr[1], 48) {
+				return "recipient"
+			}
+			if mode == "enc" && !(r.Arr[0].K == mvNil || isBinLen(r.Arr[0], 32)) {
+				return "recipient key id"
+			}
+			if mode == "sc" && !isBinLen(r.Arr[0], -1) {
+				return "recipient identifier"
+			}
+		}
+		for _, p := range pk {
+			if mode == "sc" {
+				if p.K != mvArr || len(p.Arr) != 2 || !isBinLen(p.Arr[0], -1) || p.Arr[1].K != mvBool {
+					return "packet"
+				}
+				continue
+			}
+			e, ok := flagged(p, 2)
+			if !ok || e[0].K != mvArr || !isBinLen(e[1], -1) {
+				return "packet"
+			}
+			for _, a := range e[0].Arr {
+				if !isBinLen(a, 32) {
+					return "authenticator"
+				}
+			}
+		}
+	case "att":
+		if !isBinLen(f[3], 32) || !isBinLen(f[4], -1) {
+			return "key fields"
+		}
+		for _, p := range pk {
+			e, ok := flagged(p, 2)
+			if !ok || !isBinLen(e[0], 64) || !isBinLen(e[1], -1) {
+				return "packet"
+			}
+		}
+	case "det":
+		if !isBinLen(f[3], 32) || !isBinLen(f[4], -1) || len(pk) != 1 || !isBinLen(pk[0], 64) {
+			return "detached"
+		}
+	}
+	return ""
+}
 
 func goExecExtC(t []string) (string, bool) {
 	switch t[0] {
+	case "sdw":
+		if len(t) != 3 {
+			return "", false
+		}
+		msg := unhex(t[2])
+		if why := strictShapeGo(t[1], msg); why != "" {
+			return "reject " + strings.ReplaceAll(why, " ", "_"), true
+		}
+		return "ok " + keys.Hex(msg), true
 	}
 	return "", false
 }
 
+func cmpOracle(goOut, modelOut string) bool {
+	if strings.HasPrefix(goOut, "reject") {
+		return strings.HasPrefix(modelOut, "reject")
+	}
+	return goOut == modelOut
+}
+
+// nonCanonical: every non-canonical re-encoding of one genuine message (same
+// tree for a lenient parser, other bytes).
+func nonCanonical(msg []byte) map[string][]byte {
+	out := map[string][]byte{}
+	hdrObj, inner, packets, _ := splitMsg(msg)
+	if inner == nil {
+		return out
+	}
+	hv, _, _ := mpParse(hdrObj)
+	reHdr := func(in *MV, wideOuter, strOuter bool) []byte {
+		o := &MV{K: mvBin, Data: mpEncode(in), Wide: wideOuter}
+		if strOuter {
+			o.K = mvStr
+		}
+		return joinMsg(mpEncode(o), packets)
+	}
+	out["header.bin-wide"] = reHdr(inner, true, false)
+	out["header.bin-as-str"] = reHdr(inner, false, true)
+	_ = hv
+	edit := func(name string, f func(in *MV)) {
+		in := inner.clone()
+		f(in)
+		out[name] = reHdr(in, false, false)
+	}
+	edit("header.array-wide", func(in *MV) { in.Wide = true })
+	edit("header.name-wide", func(in *MV) { in.Arr[0].Wide = true })
+	edit("header.name-as-bin", func(in *MV) { in.Arr[0].K = mvBin })
+	edit("header.version-array-wide", func(in *MV) { in.Arr[1].Wide = true })
+	edit("header.major-wide", func(in *MV) { in.Arr[1].Arr[0].Wide = true })
+	edit("header.minor-wide", func(in *MV) { in.Arr[1].Arr[1].Wide = true })
+	edit("header.mode-wide", func(in *MV) { in.Arr[2].Wide = true })
+	edit("header.key-wide", func(in *MV) { in.Arr[3].Wide = true })
+	edit("header.key-as-str", func(in *MV) { in.Arr[3].K = mvStr })
+	edit("header.field4-wide", func(in *MV) { in.Arr[4].Wide = true })
+	edit("header.field4-as-str", func(in *MV) { in.Arr[4].K = mvStr })
+	edit("header.extra-element", func(in *MV) { in.Arr = append(in.Arr, mvIntOf(7)) })
+	edit("header.extra-nil", func(in *MV) { in.Arr = append(in.Arr, &MV{K: mvNil}) })
+	if len(inner.Arr) == 6 && inner.Arr[5].K == mvArr && len(inner.Arr[5].Arr) > 0 {
+		edit("recipients.array-wide", func(in *MV) { in.Arr[5].Wide = true })
+		edit("recipient.pair-wide", func(in *MV) { in.Arr[5].Arr[0].Wide = true })
+		edit("recipient.box-wide", func(in *MV) { in.Arr[5].Arr[0].Arr[1].Wide = true })
+		edit("recipient.box-as-str", func(in *MV) { in.Arr[5].Arr[0].Arr[1].K = mvStr })
+		edit("recipient.extra-element", func(in *MV) {
+			in.Arr[5].Arr[0].Arr = append(in.Arr[5].Arr[0].Arr, mvBoolOf(true))
+		})
+		if inner.Arr[5].Arr[0].Arr[0].K == mvBin {
+			edit("recipient.id-wide", func(in *MV) { in.Arr[5].Arr[0].Arr[0].Wide = true })
+			edit("recipient.id-as-str", func(in *MV) { in.Arr[5].Arr[0].Arr[0].K = mvStr })
+		} else {
+			edit("recipient.nil-id-as-empty-bin", func(in *MV) { in.Arr[5].Arr[0].Arr[0] = mvBinOf(nil) })
+		}
+	}
+	// packets
+	for pi, po := range packets {
+		if pi > 1 && pi != len(packets)-1 {
+			continue
+		}
+		pv, _, err := mpParse(po)
+		if err != nil {
+			continue
+		}
+		pedit := func(name string, f func(p *MV) bool) {
+			p := pv.clone()
+			if !f(p) {
+				return
+			}
+			np := append([][]byte(nil), packets...)
+			np[pi] = mpEncode(p)
+			out[fmt.Sprintf("packet%d.%s", pi, name)] = joinMsg(hdrObj, np)
+		}
+		pedit("outer-wide", func(p *MV) bool { p.Wide = true; return true })
+		if pv.K != mvArr {
+			pedit("as-str", func(p *MV) bool { p.K = mvStr; return true })
+			continue
+		}
+		pedit("extra-element", func(p *MV) bool { p.Arr = append(p.Arr, mvIntOf(0)); return true })
+		for ei := range pv.Arr {
+			ei := ei
+			switch pv.Arr[ei].K {
+			case mvBin:
+				pedit(fmt.Sprintf("f%d-wide", ei), func(p *MV) bool { p.Arr[ei].Wide = true; return true })
+				pedit(fmt.Sprintf("f%d-as-str", ei), func(p *MV) bool { p.Arr[ei].K = mvStr; return true })
+				if len(pv.Arr[ei].Data) == 0 {
+					pedit(fmt.Sprintf("f%d-empty-as-nil", ei), func(p *MV) bool { p.Arr[ei] = &MV{K: mvNil}; return true })
+				}
+			case mvBool:
+				pedit(fmt.Sprintf("f%d-bool-as-int", ei), func(p *MV) bool {
+					b := int64(0)
+					if p.Arr[ei].B {
+						b = 1
+					}
+					p.Arr[ei] = mvIntOf(b)
+					return true
+				})
+			case mvArr:
+				pedit(fmt.Sprintf("f%d-array-wide", ei), func(p *MV) bool { p.Arr[ei].Wide = true; return true })
+				if len(pv.Arr[ei].Arr) > 0 {
+					pedit(fmt.Sprintf("f%d-auth-wide", ei), func(p *MV) bool { p.Arr[ei].Arr[0].Wide = true; return true })
+					pedit(fmt.Sprintf("f%d-auth-as-str", ei), func(p *MV) bool { p.Arr[ei].Arr[0].K = mvStr; return true })
+				}
+			}
+		}
+	}
+	for _, tb := range [][]byte{{0xc0}, {0x00}, {0xc1}, {0xc4}, {0x90}} {
+		out[fmt.Sprintf("trailing-%02x", tb[0])] = append(append([]byte(nil), msg...), tb...)
+	}
+	if len(msg) > 1 {
+		out["truncated-1"] = msg[:len(msg)-1]
+	}
+	return out
+}
+
+func genOracle(ctx *Ctx, emit func(Case)) {
+	r := ctx.R.Fork()
+	lens := []int{0, 1, 40}
+	for i := 0; i < ctx.N(2, 30); i++ {
+		lens = append(lens, smallLen(r))
+	}
+	if !ctx.Quick {
+		lens = append(lens, mib+1)
+	}
+	one := func(mode string, msg []byte, tag string) {
+		line := fmt.Sprintf("sdw %s %s", mode, keys.Hex(msg))
+		emit(Case{Stream: "oracle.genuine", Line: line, GoOut: goExec(line), Cmp: cmpOracle, Branch: mode + "/" + tag,
+			Direct: func() string {
+				if g := goExec(line); !strings.HasPrefix(g, "ok ") {
+					return "harness: the Go-side strictness check refuses a genuine " + mode + " message: " + g
+				}
+				return ""
+			}})
+		if len(msg) > 4096 {
+			return
+		}
+		for name, mb := range nonCanonical(msg) {
+			if bytes.Equal(mb, msg) {
+				continue
+			}
+			l := fmt.Sprintf("sdw %s %s", mode, keys.Hex(mb))
+			emit(Case{Stream: "oracle.noncanonical", Line: l, GoOut: "reject", Cmp: cmpOracle, Branch: mode + "/" + name,
+				Direct: func() string {
+					if g := goExec(l); !strings.HasPrefix(g, "reject") {
+						return "harness: the Go-side strictness check accepts the non-canonical re-encoding " + name
+					}
+					return ""
+				}})
+		}
+	}
+	for li, n := range lens {
+		c := randEncConfig(r, n)
+		if n >= mib-1 {
+			c.recips, c.hidden = c.recips[:1], c.hidden[:1]
+			c.src = randScript(r, 1, c.ephRand, -1, 0)
+		}
+		if m, ok := okBytes(goExec(c.line())); ok {
+			one("enc", m, fmt.Sprintf("v%d/%s", c.v.Major, sizeClass(n)))
+		}
+		major := 1 + li%2
+		signer, msgb := r.Bytes(32), r.Bytes(n)
+		if m, ok := okBytes(goExec(fmt.Sprintf("sig.attached %d 0 %s %s %d %s", major, keys.Hex(signer), randSigScript(r, -1, 0).Spec(), mib, keys.Hex(msgb)))); ok {
+			one("att", m, fmt.Sprintf("v%d/%s", major, sizeClass(n)))
+		}
+		if m, ok := okBytes(goExec(fmt.Sprintf("sig.detached %d 0 %s %s %s", major, keys.Hex(signer), randSigScript(r, -1, 0).Spec(), keys.Hex(msgb)))); ok {
+			one("det", m, fmt.Sprintf("v%d", major))
+		}
+		sec, symk, ident := r.Bytes(32), r.Bytes(32), r.Bytes(32)
+		boxes, syms := "b:"+keys.Hex(boxPub(sec)), "s:"+keys.Hex(symk)+":"+keys.Hex(ident)
+		snd := keys.Hex(signer)
+		if li%3 == 0 {
+			snd = "anon"
+		}
+		if m, ok := okBytes(goExec(fmt.Sprintf("sc.seal %s %s %s g:%s %s %d %s", snd, boxes, syms, keys.Hex(r.Bytes(32)), randScript(r, 2, false, -1, 0).Spec(), mib, keys.Hex(msgb)))); ok {
+			one("sc", m, sizeClass(n))
+		}
+	}
+}
+
 func init() {
-	// regExtra("Cnn", func(ctx *Ctx, emit func(Case)) { … })
+	regExtra("C08", genOracle)
 }
